@@ -18,7 +18,7 @@ MC_ACTIONS = ["MSubmit", "MAsk", "MRun", "MTell", "MCallback", "MFinish"]
 
 SCALAR_OK = ["float", "int", "bool", "numstr", "inf", "neginf", "neg", "bytes"]
 SCALAR_BAD = ["none", "nan", "badstr", "hugeint", "badobj", "hostile"]
-LIST_KINDS = ["list_ok", "list_numstr", "list_short", "list_long", "list_nan_first", "list_nan_last", "list_badelem",
+LIST_KINDS = ["list_ok", "list_numstr", "list_infs", "list_short", "list_long", "list_nan_first", "list_nan_last", "list_badelem",
               "list_hugeint"]
 RET_KINDS = SCALAR_OK + SCALAR_BAD + LIST_KINDS
 RAISE_KINDS = ["E1", "E2", "KI", "pruned"]
@@ -93,6 +93,7 @@ def _tables():
         1: {
             "list_ok": [[1.0], (1.0,), [1], [True], [np.float64(1.0)], range(1, 2), [D(1)]],
             "list_numstr": [["5"], ("5",)],
+            "list_infs": [[inf], (np.inf,), [D("Infinity")]],
             "list_short": [[], (), range(0)],
             "list_long": [[1.0, 2.0], (1.0, 2.0, 3.0)],
             "list_nan_first": [[nan], (D("NaN"),)],
@@ -102,6 +103,8 @@ def _tables():
         },
         2: {
             "list_ok": [[1.0, 2.0], (1.0, 2.0), [1, 2], [np.float32(1.0), D(2)], range(1, 3), [True, 2.0]],
+            # infinities of BOTH signs in one trial are storable values (NaN-free, float-convertible)
+            "list_infs": [[inf, -inf], (inf, -np.inf), [np.inf, D("-Infinity")], [np.float32("inf"), -inf]],
             "list_numstr": [[1.0, "5"], (1, "5")],
             "list_short": [[1.0], (1.0,), []],
             "list_long": [[1.0, 2.0, 3.0], (1.0, 2.0, 3.0, 4.0)],
